@@ -72,6 +72,7 @@ type zzC02Bad struct {
 	Lists    any          `json:"lists"`
 	History  any          `json:"history"`
 	Ops      []string     `json:"ops"`
+	AddrForm string       `json:"addrform"`
 }
 
 func TestZZVerifC02Replay(t *testing.T) {
@@ -197,7 +198,7 @@ func TestZZVerifC02Replay(t *testing.T) {
 						w.put(zzC02Bad{
 							Kind: "bad", I: l.I, S: si, Q: e.K, Qtype: e.Qt, Name: e.Name, Rep: o.Rep,
 							Ans: zzC0102FullRRs(ans), Got: o.Out, Want: want, Concrete: o.Concrete,
-							Lists: z.texts, History: history, Ops: z.ops,
+							Lists: z.texts, History: history, Ops: z.ops, AddrForm: o.AddrForm,
 						})
 					}
 
